@@ -53,8 +53,9 @@ class Ctx:
 
     def report(self, sig, what, case):
         """Report one rejection: a known finding (matched by signature) or a violation."""
+        masked_space = bool(sig.get("masked")) or sig.get("space") == "masked"     # the masked space must be clean
         for i, f in enumerate(self.findings):
-            if f.get("status") != "known":
+            if f.get("status") != "known" or masked_space:
                 continue
             if all(sig.get(k) == v for k, v in f["signature"].items()):
                 self.known_hits[i] = self.known_hits.get(i, 0) + 1
